@@ -123,7 +123,7 @@ impl CoreDID {
 
   /// Validates whether a string is a valid [`DID`] method name.
   pub fn valid_method_name(value: &str) -> Result<(), Error> {
-    if !value.chars().all(is_char_method_name) {
+    if value.is_empty() || !value.chars().all(is_char_method_name) {
       return Err(Error::InvalidMethodName);
     }
     Ok(())
@@ -141,14 +141,18 @@ impl CoreDID {
     // if !value.chars().all(is_char_method_id) {
     //   return Err(Error::InvalidMethodId);
     // }
+    if value.is_empty() {
+      return Err(Error::InvalidMethodId);
+    }
     let mut chars = value.chars();
     while let Some(c) = chars.next() {
       match c {
         '%' => {
-          let digits = chars.clone().take(2).collect::<String>();
-          u8::from_str_radix(&digits, 16).map_err(|_| Error::InvalidMethodId)?;
-          chars.next();
-          chars.next();
+          // pct-encoded = "%" HEXDIG HEXDIG
+          let is_hex_digit = |ch: Option<char>| ch.map(|ch| ch.is_ascii_hexdigit()).unwrap_or(false);
+          if !(is_hex_digit(chars.next()) && is_hex_digit(chars.next())) {
+            return Err(Error::InvalidMethodId);
+          }
         }
         c if is_char_method_id(c) => (),
         _ => return Err(Error::InvalidMethodId),
